@@ -326,6 +326,7 @@ func (fr *Frame) execSend(ins *ssa.Send, st *State) {
 	sc := vc.chsentComp()
 	cnt := fmt.Sprintf("(select %s %s)", vc.get(st, sc), c.S)
 	fn := vc.chelemFn(ct.Elem())
+	vc.assumeIf(fr.curReach, fmt.Sprintf("(>= %s 0)", cnt))
 	vc.assumeIf(fr.curReach, fmt.Sprintf("(= (%s %s %s) %s)", fn, c.S, cnt, v.S))
 	vc.set(st, sc, fmt.Sprintf("(store %s %s (+ %s 1))", vc.get(st, sc), c.S, cnt))
 }
@@ -450,19 +451,84 @@ func (fr *Frame) closeChan(arg ssa.Value, st *State, pos token.Pos) {
 	vc.set(st, "$chclosed", fmt.Sprintf("(store %s %s true)", vc.get(st, "$chclosed"), c.S))
 	vc.assumeIf(fr.curReach, fmt.Sprintf("(= (chlen %s) (select %s %s))", c.S, vc.get(st, vc.chsentComp()), c.S))
 }
-func (fr *Frame) execRange(ins *ssa.Range, st *State) {
-	fr.vc.unsupportedf("range over map/string at %s", fr.vc.posOf(ins.Pos()))
-	fr.vals[ins] = Term{"0", "Int", ins.Type()}
+// ---- range over a map ----
+// `range m` opens an iterator it; $mapiter!K[it] is the set of keys already visited. Each `next`
+// either yields a key that is in the map now and has not been visited, or reports the end — and then
+// every key in the map has been visited. No order is assumed. Insertions into the map during the
+// iteration are outside the subset (deletions are fine).
+func (vc *VC) mapIterComp(kt types.Type) string {
+	name := "$mapiter!" + typeKey(kt)
+	vc.comp(name, fmt.Sprintf("(Array Int (Array %s Bool))", vc.sortOf(kt)))
+	return name
 }
-func (fr *Frame) execNext(ins *ssa.Next, st *State) {
-	fr.vc.unsupportedf("range-next at %s", fr.vc.posOf(ins.Pos()))
-	fr.vals[ins] = Term{"tuple", "tuple", ins.Type()}
-	var parts []Term
-	tup := ins.Type().(*types.Tuple)
-	for i := 0; i < tup.Len(); i++ {
-		parts = append(parts, fr.vc.freshVal("next", tup.At(i).Type(), fr.curReach))
+
+type mapIter struct {
+	mapTerm string
+	mapVal  ssa.Value
+	mt      *types.Map
+}
+
+var mapIters = map[*Frame]map[ssa.Value]*mapIter{}
+var mapIterByTerm = map[*VC]map[string]string{} // map type key -> iterator id (latest opened over a map of that type)
+
+func (fr *Frame) execRange(ins *ssa.Range, st *State) {
+	vc := fr.vc
+	mt, ok := ins.X.Type().Underlying().(*types.Map)
+	if !ok {
+		vc.unsupportedf("range over %s at %s", ins.X.Type(), vc.posOf(ins.Pos()))
+		fr.vals[ins] = Term{"0", "Int", ins.Type()}
+		return
 	}
-	fr.tupleParts[ins] = parts
+	it := vc.newRef(st, fr.curReach)
+	comp := vc.mapIterComp(mt.Key())
+	vc.set(st, comp, fmt.Sprintf("(store %s %s ((as const (Array %s Bool)) false))", vc.get(st, comp), it, vc.sortOf(mt.Key())))
+	fr.vals[ins] = Term{it, "Int", ins.Type()}
+	if mapIters[fr] == nil {
+		mapIters[fr] = map[ssa.Value]*mapIter{}
+	}
+	m := fr.val(ins.X)
+	mapIters[fr][ins] = &mapIter{mapTerm: m.S, mapVal: ins.X, mt: mt}
+	if mapIterByTerm[vc] == nil {
+		mapIterByTerm[vc] = map[string]string{}
+	}
+	mapIterByTerm[vc][typeKey(mt)] = it
+	fr.checkMapGuard(ins.X, false, ins.Pos(), st)
+}
+
+func (fr *Frame) execNext(ins *ssa.Next, st *State) {
+	vc := fr.vc
+	mi := mapIters[fr][ins.Iter]
+	tup := ins.Type().(*types.Tuple)
+	if mi == nil {
+		vc.unsupportedf("range-next over a string at %s", vc.posOf(ins.Pos()))
+		fr.vals[ins] = Term{"tuple", "tuple", ins.Type()}
+		var parts []Term
+		for i := 0; i < tup.Len(); i++ {
+			parts = append(parts, vc.freshVal("next", tup.At(i).Type(), fr.curReach))
+		}
+		fr.tupleParts[ins] = parts
+		return
+	}
+	mt := mi.mt
+	it := fr.val(ins.Iter).S
+	comp := vc.mapIterComp(mt.Key())
+	content := fmt.Sprintf("(select %s %s)", vc.get(st, vc.mapComp(mt)), mi.mapTerm)
+	visited := fmt.Sprintf("(select %s %s)", vc.get(st, comp), it)
+	tk := typeKey(mt.Elem())
+	okn := vc.fresh("nextok")
+	vc.declare(okn, "Bool")
+	k := vc.freshVal("nextkey", mt.Key(), fr.curReach)
+	ks := vc.sortOf(mt.Key())
+	vc.assumeIf(fr.curReach, fmt.Sprintf("(=> %s (and ((_ is some_%s) (select %s %s)) (not (select %s %s))))", okn, tk, content, k.S, visited, k.S))
+	vc.assumeIf(fr.curReach, fmt.Sprintf("(=> (not %s) (forall ((q_k %s)) (! (=> ((_ is some_%s) (select %s q_k)) (select %s q_k)) :pattern ((select %s q_k)) :pattern ((select %s q_k)))))", okn, ks, tk, content, visited, content, visited))
+	// a nil map has no entries
+	vc.assumeIf(fr.curReach, fmt.Sprintf("(=> (= %s 0) (not %s))", mi.mapTerm, okn))
+	v := vc.fresh("nextval")
+	vc.define(v, vc.sortOf(mt.Elem()), fmt.Sprintf("(ite %s (val_%s (select %s %s)) %s)", okn, tk, content, k.S, vc.zero(mt.Elem()).S))
+	vc.assumeIf(fr.curReach, vc.wf(mt.Elem(), v))
+	vc.set(st, comp, fmt.Sprintf("(store %s %s (ite %s (store %s %s true) %s))", vc.get(st, comp), it, okn, visited, k.S, visited))
+	fr.tupleParts[ins] = []Term{{okn, "Bool", types.Typ[types.Bool]}, {k.S, k.Sort, mt.Key()}, {v, vc.sortOf(mt.Elem()), mt.Elem()}}
+	fr.vals[ins] = Term{"tuple", "tuple", ins.Type()}
 }
 
 // ---- readers as ghost input streams ----
